@@ -419,3 +419,167 @@ Example C07_generated_refine_com_arr_numba_runs :
   py_refine_com_arr false ex_zarr ex_zarr (RTuple [2; 2]) (mkMat 2 [[(26 # 10)%Q; (23 # 10)%Q]]) 2 "numba"%string (3 # 5) false false
   = Ret [[CQ (1601 # 529); CQ (2003 # 529); CQ 529]].
 Proof. vm_compute. reflexivity. Qed.
+
+(* ====================================================================================
+   ENGINE INDEPENDENCE AT THE LEVEL OF THE GENERATED CODE (Proofs/COMEngines.v).
+   (1) is about the two hand models, (11) / (13) / (14) say what each engine of the generated
+   refine_com_arr computes.  (19)-(21) close the gap between them; (22) is the headline. *)
+From TP Require Import Proofs.COMEngines.
+
+(* (19) the models read the image only inside the image.  If pix' / rawpix' agree with pix / rawpix on
+   every index vector inside [shape] (agree_inside: same length as shape, 0 <= x_d < shape_d) and the
+   start window lies inside the image, the kernel model returns the same answer on both -- in
+   particular on the nested-list view img2 (as_nested2 a) / img3 (as_nested3 a) that the generated
+   refine_com_arr hands to the kernels and on the array a itself. *)
+Theorem C07_kernel_model_reads_inside_only :
+  forall pix pix' rawpix rawpix' radius shape thresh max_iterations characterize start,
+  (0 <= thresh)%Q -> (2 <= length radius)%nat -> Forall (fun r => 1 <= r) radius ->
+  length shape = length radius ->
+  (forall x, length x = length shape -> in_image shape x -> pix x = pix' x) ->
+  (forall x, length x = length shape -> in_image shape x -> rawpix x = rawpix' x) ->
+  window_inside radius shape start ->
+  refine_numba pix rawpix radius shape thresh max_iterations characterize start =
+  refine_numba pix' rawpix' radius shape thresh max_iterations characterize start.
+Proof. exact refine_numba_ext. Qed.
+Print Assumptions C07_kernel_model_reads_inside_only.
+
+Theorem C07_nested_view_is_the_image :
+  (forall a : zarr, length (a_shape a) = 2%nat ->
+     forall x, length x = length (a_shape a) -> in_image (a_shape a) x -> img2 (as_nested2 a) x = a_at a x) /\
+  (forall a : zarr, length (a_shape a) = 3%nat ->
+     forall x, length x = length (a_shape a) -> in_image (a_shape a) x -> img3 (as_nested3 a) x = a_at a x).
+Proof. exact (conj img2_nested_agrees img3_nested_agrees). Qed.
+Print Assumptions C07_nested_view_is_the_image.
+
+(* (20) the kernels' outer loop on results = np.empty((N, k)): when every feature's kernel run returns
+   (no division by zero), feature j's cells land in row j and nowhere else, so the result is one row
+   per start, each the np.empty row with that feature's cells written over it
+   (fill_row row cells = results[feat, k] = v for the (k, v) of cells, on one row). *)
+Theorem C07_numba_rows_one_per_start :
+  forall run start cells k (rowf : list Z -> list cell) (starts : list (list Z)) dflt,
+  (forall j, (j < length starts)%nat -> start (Z.of_nat j) = nth j starts dflt) ->
+  (forall s, In s starts ->
+     exists out, run s = KOk out /\ Forall (fun kc => 0 <= fst kc) (cells out) /\
+                 fill_row (repeat CNone (Z.to_nat k)) (cells out) = rowf s) ->
+  numba_rows run start cells (Z.of_nat (length starts)) k = Ret (map rowf starts).
+Proof. exact numba_rows_are. Qed.
+Print Assumptions C07_numba_rows_one_per_start.
+
+(* (21) written over an np.empty row, the cells of each kernel give exactly the row the python engine
+   stacks (ref_row): same rationals in the same columns, and the ecc cell -- sliced out of both
+   translations -- is the unwritten np.empty cell in both.  out_shape nd ch iso out: out has nd
+   position entries and, with characterize, 1 (isotropic) or nd size^2 entries, signal, raw_mass --
+   the form of every output of refine_python. *)
+Theorem C07_kernel_cells_are_reference_row :
+  (forall iso out, out_shape 2 false iso out ->
+     fill_row (repeat CNone (Z.to_nat 3)) (cells_2D out) = ref_row out) /\
+  (forall out, out_shape 2 true true out ->
+     fill_row (repeat CNone (Z.to_nat 7)) (cells_2D_c out) = ref_row out) /\
+  (forall out, out_shape 2 true false out ->
+     fill_row (repeat CNone (Z.to_nat 8)) (cells_2D_c_a out) = ref_row out) /\
+  (forall ch iso out, out_shape 3 ch iso out ->
+     fill_row (repeat CNone (Z.to_nat (if ch then if iso then 8 else 10 else 4))) (cells_3D ch iso out) = ref_row out) /\
+  (forall pix rawpix radius shape thresh max_iterations characterize start,
+     out_shape (length radius) characterize (isotropic radius)
+               (refine_python pix rawpix radius shape thresh max_iterations characterize start)).
+Proof.
+  exact (conj (fun iso out H => proj2 (row_2D iso out H))
+        (conj (fun out H => proj2 (row_2D_c out H))
+        (conj (fun out H => proj2 (row_2D_c_a out H))
+        (conj (fun ch iso out H => proj2 (row_3D ch iso out H)) refine_python_shape)))).
+Qed.
+Print Assumptions C07_kernel_cells_are_reference_row.
+
+(* (22) THE HEADLINE.  refine_com_arr as generated from the source, on a 2-D or 3-D image, raw image of
+   the same shape, radius a tuple with one entry >= 1 per axis (equal or not), coords a float array
+   with one column per axis, shift threshold >= 0, any max_iterations, characterize on or off.
+   If every start pixel np.round(coords[feat]).astype(int) has its window inside the image and every
+   window its walk evaluates has non-zero brightness under the mask (the property's premise), then
+     engine='python' (or 'auto' without numba; any walkthrough flag)   and
+     engine='numba'  (or 'auto' with numba; walkthrough off)
+   both return -- neither raises -- the SAME array [rows]: one row per feature, in order, every
+   cell the identical rational (position, mass, sqrt-of the same size^2 rational(s), signal,
+   raw_mass; the ecc column is the cell neither translation models).  These are the rows of the
+   reference model refine_python, and each is self-consistent in the sense of (2): the position
+   is the brightness centroid of the very neighbourhood (the whole ellipse, inside the image) on
+   which mass, size, signal and raw_mass were measured -- so the clause holds for BOTH engines. *)
+Theorem C07_generated_engines_agree :
+  forall NUMBA_AVAILABLE NUMBA_AVAILABLE' raw_image image radius coords max_iterations engine_py engine_nb
+         thresh characterize walkthrough,
+  mat_wf coords -> a_ndim raw_image = m_ncols coords -> a_shape raw_image = a_shape image ->
+  Z.of_nat (length radius) = a_ndim image -> (a_ndim image = 2 \/ a_ndim image = 3) ->
+  (engine_py = "python"%string \/
+   (engine_py = "auto"%string /\ NUMBA_AVAILABLE && ((a_ndim image =? 2) || (a_ndim image =? 3)) = false)) ->
+  (engine_nb = "numba"%string \/ (engine_nb = "auto"%string /\ NUMBA_AVAILABLE' = true)) ->
+  (0 <= thresh)%Q -> Forall (fun r => 1 <= r) radius ->
+  (forall start, In start (m_rows (mat_round_int coords)) ->
+     window_inside radius (a_shape image) start /\
+     ref_nonzero (a_at image) radius (a_shape image) thresh (binary_mask radius) (pred (iters_of max_iterations)) start = true) ->
+  exists rows,
+    py_refine_com_arr NUMBA_AVAILABLE raw_image image (RTuple radius) coords max_iterations engine_py thresh characterize walkthrough
+      = Ret rows /\
+    py_refine_com_arr NUMBA_AVAILABLE' raw_image image (RTuple radius) coords max_iterations engine_nb thresh characterize false
+      = Ret rows /\
+    rows = refine_rows (a_at image) (a_at raw_image) radius (a_shape image) thresh max_iterations characterize
+                       (m_rows (mat_round_int coords)) /\
+    forall k start, nth_error (m_rows (mat_round_int coords)) k = Some start ->
+      exists out,
+        nth_error rows k = Some (ref_row out) /\
+        out = refine_python (a_at image) (a_at raw_image) radius (a_shape image) thresh max_iterations characterize start /\
+        row_is_consistent (a_at image) (a_at raw_image) radius (a_shape image) characterize out.
+Proof. exact generated_engines_agree. Qed.
+Print Assumptions C07_generated_engines_agree.
+
+(* (23) the same one level up, through the generated refine_com: radius a scalar or a tuple
+   (validate_tuple), coords a DataFrame (position columns given or guessed) or an array; both engines
+   return the same frame -- same column labels, same index, same rows. *)
+Theorem C07_generated_refine_com_engines_agree :
+  forall NUMBA_AVAILABLE NUMBA_AVAILABLE' raw_image image radius r c m max_iterations engine_py engine_nb
+         thresh characterize pos_columns,
+  validate_tuple radius (a_ndim image) = Ret r ->
+  match c with
+  | CDataFrame f => df_getitem_values f (match pos_columns with None => guess_pos_columns f | Some p => p end)
+  | CArray m' => Ret m'
+  end = Ret m ->
+  mat_wf m -> a_ndim raw_image = m_ncols m -> a_shape raw_image = a_shape image ->
+  (a_ndim image = 2 \/ a_ndim image = 3) ->
+  (engine_py = "python"%string \/
+   (engine_py = "auto"%string /\ NUMBA_AVAILABLE && ((a_ndim image =? 2) || (a_ndim image =? 3)) = false)) ->
+  (engine_nb = "numba"%string \/ (engine_nb = "auto"%string /\ NUMBA_AVAILABLE' = true)) ->
+  (0 <= thresh)%Q -> Forall (fun r => 1 <= r) r ->
+  (forall start, In start (m_rows (mat_round_int m)) ->
+     window_inside r (a_shape image) start /\
+     ref_nonzero (a_at image) r (a_shape image) thresh (binary_mask r) (pred (iters_of max_iterations)) start = true) ->
+  exists frame,
+    py_refine_com NUMBA_AVAILABLE raw_image image radius c max_iterations engine_py thresh characterize pos_columns = Ret frame /\
+    py_refine_com NUMBA_AVAILABLE' raw_image image radius c max_iterations engine_nb thresh characterize pos_columns = Ret frame /\
+    of_rows frame = refine_rows (a_at image) (a_at raw_image) r (a_shape image) thresh max_iterations characterize
+                                (m_rows (mat_round_int m)).
+Proof. exact generated_refine_com_engines_agree. Qed.
+Print Assumptions C07_generated_refine_com_engines_agree.
+
+(* non-vacuity of (22): two features on the 7x9 image of the examples above (the first walks and is stopped
+   by the limit, mass 529; the second, mass 3112): all hypotheses hold for radius (2, 2); both generated engines
+   return the same two 7-column rows, ecc cell unwritten -- and the same 8-column rows for the radius (2, 1) *)
+Definition ex_coords : qmat := mkMat 2 [[(26 # 10)%Q; (23 # 10)%Q]; [(3 # 1)%Q; (6 # 1)%Q]].
+Example C07_generated_engines_agree_hypotheses_satisfiable :
+  mat_wf ex_coords /\ a_ndim ex_zarr = m_ncols ex_coords /\ Z.of_nat (length [2; 2]) = a_ndim ex_zarr /\
+  a_ndim ex_zarr = 2 /\ (0 <= 3 # 5)%Q /\ Forall (fun r => 1 <= r) [2; 2] /\
+  (forall start, In start (m_rows (mat_round_int ex_coords)) ->
+     window_inside [2; 2] (a_shape ex_zarr) start /\
+     ref_nonzero (a_at ex_zarr) [2; 2] (a_shape ex_zarr) (3 # 5) (binary_mask [2; 2]) (pred (iters_of 2)) start = true).
+Proof.
+  split; [repeat constructor|]. split; [reflexivity|]. split; [reflexivity|]. split; [reflexivity|].
+  split; [discriminate|]. split; [repeat constructor; lia|].
+  intros start [<-|[<-|[]]]; (split; [|vm_compute; reflexivity]);
+    intros d Hd; destruct d as [|[|d]]; cbn in *; lia.
+Qed.
+
+Example C07_generated_engines_agree_runs :
+  py_refine_com_arr false ex_zarr ex_zarr (RTuple [2; 2]) ex_coords 2 "python"%string (3 # 5) true false
+  = py_refine_com_arr false ex_zarr ex_zarr (RTuple [2; 2]) ex_coords 2 "numba"%string (3 # 5) true false /\
+  py_refine_com_arr false ex_zarr ex_zarr (RTuple [2; 1]) ex_coords 2 "python"%string (3 # 5) true false
+  = py_refine_com_arr false ex_zarr ex_zarr (RTuple [2; 1]) ex_coords 2 "numba"%string (3 # 5) true false /\
+  exists r1 r2, py_refine_com_arr false ex_zarr ex_zarr (RTuple [2; 2]) ex_coords 2 "numba"%string (3 # 5) true false = Ret [r1; r2] /\
+    nth 2 r1 CNone = CQ 529 /\ nth 2 r2 CNone = CQ 3112 /\ nth 4 r1 (CQ 0) = CNone /\ length r1 = 7%nat.
+Proof. vm_compute. split; [reflexivity|]. split; [reflexivity|]. eexists. eexists. repeat split; reflexivity. Qed.
